@@ -4,6 +4,7 @@
 import Emu.Proofs.BtRows
 import Emu.Bt.Server
 import Emu.Proofs.LeafTie.ValidateFilter
+import Emu.Proofs.LeafTie.IncludeCell
 
 namespace Emu.Props.C12
 open Emu Emu.Bt Emu.Proofs.BtRow Emu.Proofs.BtInv Emu.Proofs.BtRows
@@ -128,5 +129,12 @@ off the Go text by `factx` on every run; it is the Model's `validFilter` (the fu
 theorem source_validateFilter_is_the_models (f : Filter) :
     Emu.Generated.Leaf.validateFilter f = validFilter f :=
   Emu.Proofs.LeafTie.validateFilter_tie f
+
+/-- The per-cell tests a predicate applies (whether the predicate "matches" comes down to which cells
+    they leave), as the repository's `includeCell` states them, are the Model's on every predicate
+    that passes validation. -/
+theorem source_includeCell_is_the_models (f : Filter) (fam qual : Bytes) (c : Cell) (hv : validFilter f = true) :
+    Emu.Generated.Leaf.includeCell f fam qual c = includeCell f fam qual c :=
+  Emu.Proofs.LeafTie.includeCell_tie f fam qual c hv
 
 end Emu.Props.C12
